@@ -14,6 +14,10 @@ between - every monitored call there is also compared with the same call on a fr
 values; f(A); f(B); f(A) with B of another shape, another factor but the same output length, or the same record with other
 options; targets at the end of the admissible range (half the duration), 3..6-sample records, factors up to 2000; silent
 (all-zero) and strictly one-signed records in every container; rejected / out-of-domain calls judged for purity only.
+Round 5 (audit checklist 28-33): the two steps and the flag in every scalar form (NumPy scalars, mutable 0-d arrays, Python /
+NumPy integers; the monitors snapshot them at call entry and judge against the snapshot), bool-dtype records, one-entry arrays
+as unusable steps, user settings outside the band of the data on the object that is resampled, every array of an earlier result
+overwritten before the call is repeated; the classifier of the known finding K6 accepts ONE grid length (nearest to npts/m).
 """
 import copy
 
@@ -64,7 +68,16 @@ RULE = ('cases = (values, dt, target_dt, even, entry point) calls of the real fu
         'response-spectrum call that raises - each followed by interp_to_approx_dt and resample_to_approx_dt in three '
         'argument styles; after copy.copy one side is rebound first and calls are made only once the buffers are separate; '
         'array- and object-level calls outside the quantifier (non-finite samples, 0..2 samples, unusable target or step). '
-        'distinct = digest(values, dt, target, even, entry point); non-trivial = non-constant record.')
+        'Round 5: dt and target_dt as np.float64 / np.float32 / 0-d float64 / 0-d float32 arrays (float32 forms hold the '
+        'float32-rounded step, which is then the step of the case), whole-second steps as Python int / np.int64 / np.int32 / 0-d '
+        'integer arrays, mixed freely with each other and with Python floats (static and random pairs, 18 integer pairs), '
+        'array-, object- (AccSignal(values, dt as given)), consumer-level (float32 period lists, min_dt_ratio as int / NumPy '
+        'scalar / 0-d array) and Fourier; even as bool / np.bool_ / int / np.int64 / 0-d bool array in every driver; records '
+        'of dtype bool and lists of Python bools (samples above the median, rectangular pulses, all on / all off); one-entry '
+        'and two-entry arrays as target or step (rejected: purity only); AccSignal objects built with smoothing frequencies '
+        'above the Nyquist frequency and response periods below two steps and then resampled by both variants; f(A); f(B); '
+        'overwrite every array of both results (values, step, every array attribute of the returned object); f(A). '
+        'distinct = digest(values, dt, target, even, entry point, scalar forms); non-trivial = non-constant record.')
 ASSUMPTIONS = ['finite real input, dt > 0, target_dt > 0, duration (n-1)*dt >= 2*max(dt, target_dt); other calls are '
                'counted, not judged',
                'every call is judged against a copy of its array argument (the signal object\'s values and dt) taken at '
@@ -102,8 +115,22 @@ ASSUMPTIONS = ['finite real input, dt > 0, target_dt > 0, duration (n-1)*dt >= 2
                'options only, so it equals (values ==, NaN == NaN, same step, same type) the result of the same call on a '
                'fresh AccSignal built from a copy of those values - judged also outside the quantifier, where both may raise',
                'the all-zero record is a record: its range is {0}, every clause applies (band-limited tolerance 1e-10*max|x| = 0: '
-               'the output must be exactly zero)']
+               'the output must be exactly zero)',
+               'scalar forms: the steps of a call are float(dt), float(target_dt) of the arguments AS GIVEN (entry snapshot for '
+               '0-d arrays). When NumPy forms dt/target_dt or dt/factor in float32 (a float32 record step, or np.float32 with a '
+               'Python number / another float32) the quotient and the returned step are rounded to eps32: step rule and integer '
+               'ratio are then judged with 4*eps32 instead of 1e-12 / 1e-9, the decimation subsequence with eps32 in the local '
+               'tolerance, and the Fourier instants are taken from the certified integer ratio instead of the rounded returned '
+               'step; all other forms keep the double-precision tolerances. float16 / bool steps are not driven',
+               'bool-dtype records are records (0.0 / 1.0); one- and two-sample records and one-entry arrays as steps lie '
+               'outside the quantifier (duration >= 2*max(dt, target) needs three samples) and are judged for purity only; a '
+               'period list that is only [0] makes gen_response_spectrum raise before the resampler is reached (not driven)',
+               'K6 classifier: the FFT grid length L must be the integer nearest to npts/m (|L - npts/m| <= 1/2); with that one '
+               'convention per case a grid of any other length is a violation, not the known finding']
 OOD_PURITY = 'purity.rejected-or-out-of-domain-call-args-unchanged'
+P_SCALAR = 'purity.scalar-arguments-unchanged'
+P_SETTINGS = 'settings.unchanged-by-resampling-call'
+P_OWNED = 'state.repeat-call-identical-after-overwriting-earlier-results'
 MIN_EVALS = {
     'quick': {'interp.step<=target': 12000, 'interp.ratio-integer': 12000, 'interp.retained-samples': 7000,
               'interp.subsequence': 5500, 'interp.range': 12000, 'interp.duration<2steps': 12000,
@@ -121,7 +148,10 @@ MIN_EVALS = {
               'protocol.after-assignment-result==fresh-twin': 300, 'protocol.after-raise-result==fresh-twin': 450,
               OOD_PURITY: 600, 'state.first-result-intact-after-second-call/varied-second-call': 500,
               'state.repeat-call-identical/varied-second-call': 500, 'edge.monitored-call': 1000,
-              'silent-or-one-signed.monitored-call': 250},
+              'silent-or-one-signed.monitored-call': 250,
+              # round 5 (audit checklist 28-33)
+              'scalar-forms.monitored-call': 1100, P_SCALAR: 2000, 'bool-record.monitored-call': 600, P_SETTINGS: 1500,
+              P_OWNED: 800},
     'thorough': {'interp.step<=target': 250000, 'interp.ratio-integer': 250000, 'interp.retained-samples': 130000,
                  'interp.subsequence': 110000, 'interp.range': 250000, 'interp.duration<2steps': 250000,
                  'interp.even-length': 120000, 'interp.args-unchanged': 250000,
@@ -139,8 +169,11 @@ MIN_EVALS = {
                  'protocol.after-assignment-result==fresh-twin': 7000, 'protocol.after-raise-result==fresh-twin': 9000,
                  OOD_PURITY: 12000, 'state.first-result-intact-after-second-call/varied-second-call': 14000,
                  'state.repeat-call-identical/varied-second-call': 14000, 'edge.monitored-call': 20000,
-                 'silent-or-one-signed.monitored-call': 2500}}
+                 'silent-or-one-signed.monitored-call': 2500,
+                 'scalar-forms.monitored-call': 20000, P_SCALAR: 25000, 'bool-record.monitored-call': 12000,
+                 P_SETTINGS: 30000, P_OWNED: 20000}}
 CTX = None
+EPS64 = float(np.finfo(float).eps)
 K6 = 'C14/fourier-decimation-nondivisible'
 K6_ACCEPT_PARITY_TRIM = True   # also accept the FFT grid of len(y)+1 points when even=True (see ASSUMPTIONS / k6_explains)
 VIA = {'consumer': False}
@@ -184,10 +217,63 @@ def _unchanged(values, snap):
     return True
 
 
+def _sform(v):
+    """Name of the scalar form of a numeric / flag argument (replay rebuilds the argument from it)."""
+    if isinstance(v, np.ndarray):
+        return ('0d-%s' % v.dtype) if v.ndim == 0 else ('array%d-%s' % (v.size, v.dtype))
+    if isinstance(v, np.generic):
+        return 'np.' + str(np.dtype(type(v)))
+    return type(v).__name__
+
+
+def _smake(form, v):
+    """The value v in the named scalar form (inverse of _sform for the forms the workload drives)."""
+    if form is None or v is None or isinstance(v, (str, list)):
+        return v
+    try:
+        if form.startswith('0d-'):
+            return np.array(v, dtype=np.dtype(form[3:]))
+        if form.startswith('array'):
+            return np.atleast_1d(np.array(v, dtype=np.dtype(form.split('-', 1)[1])))
+        if form.startswith('np.'):
+            return np.dtype(form[3:]).type(v)
+        return {'float': float, 'int': int, 'bool': bool}.get(form, lambda u: u)(v)
+    except Exception:
+        return v
+
+
+def _freeze(v):
+    """Entry value of a scalar argument: 0-d (and one-entry) arrays are MUTABLE - copied like any other array."""
+    return v.copy() if isinstance(v, np.ndarray) else v
+
+
+def _scalar_same(v, frozen):
+    if isinstance(frozen, np.ndarray):
+        return (isinstance(v, np.ndarray) and v.dtype == frozen.dtype and v.shape == frozen.shape
+                and v.tobytes() == frozen.tobytes())
+    return True        # immutable Python / NumPy scalars
+
+
+def _purity_scalars(ctx, fn, pre, cur):
+    """0-d arrays given as dt / target_dt / even (or held by the signal object as its dt) hold the same bits after the call
+    (`dt /= factor` inside a function changes the caller's step). Evaluated only when at least one of them is an array."""
+    if not pre.get('mutable'):
+        return
+    bad = [k for k in ('dt', 'target', 'even') if not _scalar_same(cur.get(k), pre[k])]
+    ctx.check(not bad, P_SCALAR,
+              lambda: _wit(fn, pre['snap'], pre['dt'], pre['target'], pre['even'], changed=bad,
+                           after={k: cur.get(k) for k in bad}),
+              '%s(dt=%r, target_dt=%r, even=%r) changed the caller\'s %s in place (now %r)'
+              % (fn, pre['dt'], pre['target'], pre['even'], '/'.join(bad), [cur.get(k) for k in bad]))
+
+
 def _wit(fn, snap, dt, target, even, **kw):
     c = snap['copy']
     d = {'fn': fn, 'values': np.asarray(c), 'container': snap['kind'], 'form': snap['form'], 'dt': dt,
-         'target_dt': target, 'even': even}
+         'target_dt': target, 'even': even,
+         'scalar_forms': {'dt': _sform(dt), 'target_dt': _sform(target), 'even': _sform(even)}}
+    if snap['kind'] == 'ndarray' and c.dtype.kind == 'b':
+        d['values_dtype'] = 'bool'
     if snap['kind'] in ('list', 'tuple'):
         d['py_values'] = list(c)
     if SCEN['spec'] is not None:      # a call made inside a scripted scenario: replay re-runs the whole script
@@ -199,7 +285,7 @@ def _wit(fn, snap, dt, target, even, **kw):
 
 def _finite_real(x):
     """finite 1-d numeric record (complex records - what fas2signal produces - included)"""
-    return x.ndim == 1 and x.dtype.kind in 'fiuc' and bool(np.all(np.isfinite(x)))
+    return x.ndim == 1 and x.dtype.kind in 'fiucb' and bool(np.all(np.isfinite(x)))
 
 
 def _domain(ctx, prefix, x, dt, target):
@@ -215,7 +301,7 @@ def _domain(ctx, prefix, x, dt, target):
 def _float_copy(snap):
     try:
         x = np.asarray(snap['copy'])
-        if x.dtype.kind not in 'fiuc':     # e.g. object arrays from lists holding Python ints beyond int64: rejected by
+        if x.dtype.kind not in 'fiucb':    # e.g. object arrays from lists holding Python ints beyond int64: rejected by
             return None                    # numpy's interp itself, counted as out-of-domain
         x = np.asarray(x, dtype=complex if x.dtype.kind == 'c' else float)
     except Exception:
@@ -253,8 +339,17 @@ def check_interp(ctx, prefix, fn, snap, dt, target, even, y, new_dt):
         return False
     if not _domain(ctx, prefix, x, dt, target):
         return False
+    seps = O.step_arithmetic_eps(dt, target)      # from the two steps in the form the caller gave them
+    reduced = seps > EPS64
+    if reduced:
+        ctx.observe(prefix + 'steps given in float32: step rule / ratio / subsequence judged with the float32 rounding unit')
+    if _sform(dt) != 'float' or _sform(target) != 'float':
+        ctx.observe('scalar form dt=%s target_dt=%s' % (_sform(dt), _sform(target)))
+    if _sform(even) != 'bool':
+        ctx.observe('scalar form even=%s' % _sform(even))
     dt = float(dt)
     target = float(target)
+    even = bool(even)
     n = len(x)
     ctx.ok(prefix + 'returns')
     try:
@@ -271,8 +366,9 @@ def check_interp(ctx, prefix, fn, snap, dt, target, even, y, new_dt):
         return True
     head = '%s(n=%d %s%s, dt=%r, target_dt=%r, even=%r) -> (len %d, dt %r)' % (
         fn, n, snap['kind'], (' ' + snap['form']) if snap['form'] else '', dt, target, even, len(y), new_dt)
-    ctx.check(O.step_rule(new_dt, target), prefix + 'step<=target', w, head + ': returned step exceeds the target')
-    kind, k = O.ratio_kind(dt, new_dt)
+    ctx.check(O.step_rule(new_dt, target, 4 * seps if reduced else O.STEP_SLACK), prefix + 'step<=target', w,
+              head + ': returned step exceeds the target')
+    kind, k = O.ratio_kind(dt, new_dt, 4 * seps if reduced else O.RATIO_TOL)
     ctx.check(kind is not None, prefix + 'ratio-integer', w,
               head + ': dt/new_dt = %r is neither an integer nor the reciprocal of one' % (k,))
     if even:
@@ -293,7 +389,7 @@ def check_interp(ctx, prefix, fn, snap, dt, target, even, y, new_dt):
     elif kind == 'decimate':
         if len(y) > (n - 1) // k + 1:
             ctx.observe(prefix + 'decimation grid ran past the last sample (awkward count factor*npts)')
-        okk, i, allowed = O.subsequence_decimating(x, y, k)
+        okk, i, allowed = O.subsequence_decimating(x, y, k, eps=seps if reduced else None)
         ctx.check(okk, prefix + 'subsequence', lambda: w(factor=k, first_bad_output_index=i, allowed=allowed),
                   head + ': output index %s is not input sample %s (stride %d)' % (i, None if i is None else i * k, k))
         if dt * (k + 1) <= target:
@@ -303,15 +399,17 @@ def check_interp(ctx, prefix, fn, snap, dt, target, even, y, new_dt):
     return True
 
 
-def k6_explains(N, dt, new_dt, even, y, a, b, Ks, scale, skip, tol=None):
+def k6_explains(N, dt, new_dt, even, y, a, b, Ks, scale, skip, tol=None, ratio_tol=None):
     """Mechanism classifier of the open finding C14/fourier-decimation-nondivisible (DESIGN.md C14 (g)): Fourier
     variant, decimating by m, npts % m != 0, and the output equals the analytic band-limited signal sampled at spacing
     npts*dt/L, L = len(y) (or len(y)+1 when an even length was requested, the FFT grid before the parity trim) - i.e.
     the only thing wrong is the claimed step."""
-    kind, m = O.ratio_kind(dt, new_dt)
+    kind, m = O.ratio_kind(dt, new_dt, O.RATIO_TOL if ratio_tol is None else ratio_tol)
     if kind != 'decimate' or N % m == 0 or len(y) == 0:
         return False
     for L in ((len(y), len(y) + 1) if (even and K6_ACCEPT_PARITY_TRIM) else (len(y),)):
+        if abs(L - N / float(m)) > 0.5 * (1 + 1e-9):
+            continue        # ONE convention: the FFT grid has the integer number of points nearest to npts/m, nothing else
         exp = O.trig_eval(a, b, Ks, np.arange(len(y)) / float(L), skip)
         if bool(np.all(np.abs(y - exp) <= (O.BAND_RTOL * scale if tol is None else tol))):
             return L
@@ -328,8 +426,17 @@ def check_fourier(ctx, snap, dt, target, even, result):
         return False
     if not _domain(ctx, prefix, x, dt, target):
         return False
+    seps = O.step_arithmetic_eps(dt, target)
+    reduced = seps > EPS64
+    if reduced:
+        ctx.observe(prefix + 'steps given in float32: step rule / ratio judged with the float32 rounding unit, instants from the integer ratio')
+    if _sform(dt) != 'float' or _sform(target) != 'float':
+        ctx.observe('scalar form dt=%s target_dt=%s' % (_sform(dt), _sform(target)))
+    if _sform(even) != 'bool':
+        ctx.observe('scalar form even=%s' % _sform(even))
     dt = float(dt)
     target = float(target)
+    even = bool(even)
     N = len(x)
     ctx.ok(prefix + 'returns')
     try:
@@ -344,8 +451,9 @@ def check_fourier(ctx, snap, dt, target, even, result):
         return True
     w = lambda **kw: _wit(fn, snap, dt, target, even, got_len=len(y), got_dt=new_dt, **kw)
     head = '%s(n=%d, dt=%r, target_dt=%r, even=%r) -> (len %d, dt %r)' % (fn, N, dt, target, even, len(y), new_dt)
-    ctx.check(O.step_rule(new_dt, target), prefix + 'step<=target', w, head + ': returned step exceeds the target')
-    kind, k = O.ratio_kind(dt, new_dt)
+    ctx.check(O.step_rule(new_dt, target, 4 * seps if reduced else O.STEP_SLACK), prefix + 'step<=target', w,
+              head + ': returned step exceeds the target')
+    kind, k = O.ratio_kind(dt, new_dt, 4 * seps if reduced else O.RATIO_TOL)
     ctx.check(kind is not None, prefix + 'ratio-integer', w,
               head + ': dt/new_dt = %r is neither an integer nor the reciprocal of one' % (k,))
     if even and len(y) % 2:
@@ -382,14 +490,18 @@ def check_fourier(ctx, snap, dt, target, even, result):
     if n_harm * len(y) > ORACLE_BUDGET:
         ctx.observe(prefix + 'reference too expensive: harmonics x output samples > %g (not judged)' % ORACLE_BUDGET)
         return True
-    tau = np.arange(len(y)) * new_dt / (N * dt)
+    if reduced:     # the claimed step carries float32 rounding (6e-8): the instants are those of the certified integer ratio
+        tau = np.arange(len(y)) * ((1.0 / k) if kind == 'refine' else float(k)) / N
+    else:
+        tau = np.arange(len(y)) * new_dt / (N * dt)
     exp = O.trig_eval(a, b, Ks, tau, skip)
     err = np.abs(y - exp)
     allowed = rtol * scale
     okk = bool(np.all(err <= allowed))
     fin = None
     if not okk:
-        L = k6_explains(N, dt, new_dt, even, y, a, b, Ks, scale, skip, tol=allowed)
+        L = k6_explains(N, dt, new_dt, even, y, a, b, Ks, scale, skip, tol=allowed,
+                        ratio_tol=4 * seps if reduced else None)
         if L:
             fin = K6
             ctx.observe('fourier.K6 matched with FFT grid of %s points' % ('len(y)' if L == len(y) else 'len(y)+1 (parity trim)'))
@@ -427,8 +539,9 @@ _OBJ = ('asig', 'target_dt', 'even')
 
 def _pre_array(args, kwargs):
     try:
-        values = _parse(args, kwargs, _ARR, _DEF)[0]
-        return {'snap': _snapshot(values)}
+        values, dt, target, even = _parse(args, kwargs, _ARR, _DEF)
+        return {'snap': _snapshot(values), 'dt': _freeze(dt), 'target': _freeze(target), 'even': _freeze(even),
+                'mutable': any(isinstance(v, np.ndarray) for v in (dt, target, even))}
     except Exception:
         return None
 
@@ -436,8 +549,10 @@ def _pre_array(args, kwargs):
 def _pre_obj(args, kwargs):
     """Snapshot of the object's primary data (values, dt) at call entry - never its derived caches."""
     try:
-        asig = _parse(args, kwargs, _OBJ, _DEF)[0]
-        return {'snap': _snapshot(asig.values), 'dt': asig.dt, 'state': _obj_state(asig)}
+        asig, target, even = _parse(args, kwargs, _OBJ, _DEF)
+        dt = asig.dt
+        return {'snap': _snapshot(asig.values), 'dt': _freeze(dt), 'target': _freeze(target), 'even': _freeze(even),
+                'mutable': any(isinstance(v, np.ndarray) for v in (dt, target, even)), 'state': _obj_state(asig)}
     except Exception:
         return None
 
@@ -454,7 +569,11 @@ def _purity_obj(ctx, prefix, fn, asig, pre, target, even, clause=None):
     changed = None
     try:
         d0, d1 = pre['dt'], asig.dt
-        same = _unchanged(asig.values, pre['snap']) and type(d1) is type(d0) and (d1 is d0 or d1 == d0 or (d1 != d1 and d0 != d0))
+        if isinstance(d0, np.ndarray):
+            same_dt = _scalar_same(d1, d0)
+        else:
+            same_dt = type(d1) is type(d0) and bool(d1 is d0 or d1 == d0 or (d1 != d1 and d0 != d0))
+        same = _unchanged(asig.values, pre['snap']) and same_dt
         changed = _state_diff(pre['state'], _obj_state(asig))
         same = same and not changed
     except Exception:
@@ -476,6 +595,18 @@ def _owns(ctx, prefix, fn, res_values, arg_values, snap, dt, target, even):
               '%s(dt=%r, target_dt=%r, even=%r): the returned values share memory with the argument' % (fn, dt, target, even))
 
 
+def _shared_step(ctx, prefix, fn, result, asig, pre, target, even):
+    """The returned object's step is its own: not the 0-d array the argument object (or the caller) holds."""
+    try:
+        rd = result.dt
+        if isinstance(rd, np.ndarray):
+            ctx.check(not any(isinstance(v, np.ndarray) and np.shares_memory(rd, v) for v in (asig.dt, target)),
+                      prefix + 'result-owns-data', lambda: _wit(fn, pre['snap'], pre['dt'], target, even),
+                      '%s returned an object whose step shares memory with a 0-d array of the caller' % fn)
+    except Exception:
+        pass
+
+
 def _post_interp_array(args, kwargs, result, pre):
     values, dt, target, even = _parse(args, kwargs, _ARR, _DEF)
     if pre is None:
@@ -485,11 +616,18 @@ def _post_interp_array(args, kwargs, result, pre):
         y, new_dt = result
     except Exception:
         y, new_dt = result, None
+    cur = {'dt': dt, 'target': target, 'even': even}
+    dt, target, even = pre['dt'], pre['target'], pre['even']      # judged against the ENTRY values of the scalar arguments
     if check_interp(CTX, 'interp.', 'interp_array_to_approx_dt', pre['snap'], dt, target, even, y, new_dt):
         _purity_array(CTX, 'interp.', 'interp_array_to_approx_dt', values, pre, dt, target, even)
         _owns(CTX, 'interp.', 'interp_array_to_approx_dt', y, values, pre['snap'], dt, target, even)
+        if isinstance(new_dt, np.ndarray):
+            CTX.check(not any(isinstance(v, np.ndarray) and np.shares_memory(new_dt, v) for v in cur.values()),
+                      'interp.result-owns-data', lambda: _wit('interp_array_to_approx_dt', pre['snap'], dt, target, even),
+                      'interp_array_to_approx_dt returned a step that shares memory with a 0-d array argument')
     else:       # outside the quantifier no value is judged, but the caller's array is still the caller's
         _purity_array(CTX, 'interp.', 'interp_array_to_approx_dt', values, pre, dt, target, even, clause=OOD_PURITY)
+    _purity_scalars(CTX, 'interp_array_to_approx_dt', pre, cur)
 
 
 def _post_interp_obj(args, kwargs, result, pre):
@@ -501,8 +639,12 @@ def _post_interp_obj(args, kwargs, result, pre):
         y, new_dt = result.values, result.dt
     except Exception:
         y, new_dt = result, None
+    cur = {'dt': getattr(asig, 'dt', None), 'target': target, 'even': even}
+    target, even = pre['target'], pre['even']
+    _purity_scalars(CTX, 'interp_to_approx_dt', pre, cur)
     if check_interp(CTX, 'interp_obj.', 'interp_to_approx_dt', pre['snap'], pre['dt'], target, even, y, new_dt):
         fn = 'interp_to_approx_dt'
+        _shared_step(CTX, 'interp_obj.', fn, result, asig, pre, target, even)
         _purity_obj(CTX, 'interp_obj.', fn, asig, pre, target, even)
         _owns(CTX, 'interp_obj.', fn, y, getattr(asig, 'values', None), pre['snap'], pre['dt'], target, even)
         CTX.check(result is not asig, 'interp_obj.result-owns-data', lambda: _wit(fn, pre['snap'], pre['dt'], target, even),
@@ -511,8 +653,8 @@ def _post_interp_obj(args, kwargs, result, pre):
         import eqsig
         try:
             with attach.paused():
-                ya, dta = eqsig.fns.time_step.interp_array_to_approx_dt(pre['snap']['copy'], pre['dt'], target_dt=target,
-                                                                        even=even)
+                ya, dta = eqsig.fns.time_step.interp_array_to_approx_dt(pre['snap']['copy'], _freeze(pre['dt']),
+                                                                        target_dt=_freeze(target), even=_freeze(even))
             agree = (np.asarray(y).shape == np.asarray(ya).shape and np.asarray(y).tobytes() == np.asarray(ya).tobytes()
                      and float(new_dt) == float(dta))
         except Exception:
@@ -533,8 +675,12 @@ def _post_resample(args, kwargs, result, pre):
     if pre is None:
         CTX.observe('fourier.out-of-domain call (not judged)')
         return
+    cur = {'dt': getattr(asig, 'dt', None), 'target': target, 'even': even}
+    target, even = pre['target'], pre['even']
+    _purity_scalars(CTX, 'resample_to_approx_dt', pre, cur)
     if check_fourier(CTX, pre['snap'], pre['dt'], target, even, result):
         fn = 'resample_to_approx_dt'
+        _shared_step(CTX, 'fourier.', fn, result, asig, pre, target, even)
         _purity_obj(CTX, 'fourier.', fn, asig, pre, target, even)
         _owns(CTX, 'fourier.', fn, getattr(result, 'values', None), getattr(asig, 'values', None), pre['snap'], pre['dt'],
               target, even)
@@ -544,8 +690,8 @@ def _post_resample(args, kwargs, result, pre):
         import eqsig
         try:
             with attach.paused():
-                dta = eqsig.fns.time_step.interp_array_to_approx_dt(np.zeros(len(pre['snap']['copy'])), pre['dt'],
-                                                                    target_dt=target, even=even)[1]
+                dta = eqsig.fns.time_step.interp_array_to_approx_dt(np.zeros(len(pre['snap']['copy'])), _freeze(pre['dt']),
+                                                                    target_dt=_freeze(target), even=_freeze(even))[1]
             if float(dta) != float(result.dt):
                 CTX.observe('fourier.step differs from the interpolation variant (no verdict)')
         except Exception:
@@ -561,18 +707,16 @@ def _exc_hook(prefix, fn, objlevel):
             try:
                 if objlevel:
                     asig, target, even = _parse(args, kwargs, _OBJ, _DEF)
-                    _purity_obj(CTX, prefix, fn, asig, pre, target, even, clause=OOD_PURITY)
+                    _purity_obj(CTX, prefix, fn, asig, pre, pre['target'], pre['even'], clause=OOD_PURITY)
+                    _purity_scalars(CTX, fn, pre, {'dt': getattr(asig, 'dt', None), 'target': target, 'even': even})
                 else:
                     values, dt, target, even = _parse(args, kwargs, _ARR, _DEF)
-                    _purity_array(CTX, prefix, fn, values, pre, dt, target, even, clause=OOD_PURITY)
+                    _purity_array(CTX, prefix, fn, values, pre, pre['dt'], pre['target'], pre['even'], clause=OOD_PURITY)
+                    _purity_scalars(CTX, fn, pre, {'dt': dt, 'target': target, 'even': even})
             except Exception:
                 CTX.observe(prefix + 'raising call with unparsable arguments (purity not judged)')
         try:
-            if objlevel:
-                asig, target, even = _parse(args, kwargs, _OBJ, _DEF)
-                dt = pre['dt']
-            else:
-                values, dt, target, even = _parse(args, kwargs, _ARR, _DEF)
+            dt, target, even = pre['dt'], pre['target'], pre['even']
             x = _float_copy(pre['snap'])
         except Exception:
             x = None
@@ -835,7 +979,7 @@ def make_record(rng, n, scales=True, rec=None):
 
 INT_FORMS = {'i64': np.int64, 'i32': np.int32, 'i16': np.int16, 'i8': np.int8, 'u8': np.uint8, 'u16': np.uint16}
 FORMS = ['f32', 'i64', 'i32', 'i16', 'i8', 'u8', 'u16', 'list', 'tuple', 'list-int', 'list-mixed', 'view-stride2',
-         'view-reversed', 'readonly', 'readonly-view']
+         'view-reversed', 'readonly', 'readonly-view', 'bool', 'list-bool']
 
 
 def make_form(rng, x, form):
@@ -853,6 +997,20 @@ def make_form(rng, x, form):
             z = (x - np.min(x)) / p
             v = np.clip(np.rint(lo + z * (float(hi) - float(lo))), lo, hi)
         return np.asarray(v).astype(dtp)
+    if form in ('bool', 'list-bool'):
+        # on/off records: the samples above the median, a rectangular pulse, or all on / all off (a constant record)
+        r = rng.random()
+        if r < 0.5 and np.ptp(x) > 0:
+            v = np.asarray(x > np.median(x))
+        elif r < 0.85 or n < 4:
+            a = int(rng.integers(0, n))
+            v = np.zeros(n, dtype=bool)
+            v[a:a + int(rng.integers(1, max(2, n // 2)))] = True
+            if rng.random() < 0.3:
+                v = ~v
+        else:
+            v = np.full(n, bool(rng.random() < 0.5))
+        return v if form == 'bool' else [bool(u) for u in v]
     if form == 'list':
         return [float(v) for v in x]
     if form == 'tuple':
@@ -884,9 +1042,54 @@ def pick_even(rng, even):
     r = rng.random()
     if r < 0.8:
         return bool(even)
-    if r < 0.9:
+    if r < 0.87:
         return np.bool_(even)
-    return int(bool(even))
+    if r < 0.93:
+        return int(bool(even))
+    if r < 0.98:
+        return np.array(bool(even))          # 0-d bool array (mutable; `even is True` fails for it)
+    return np.int64(bool(even))
+
+
+FLOAT_SFORMS = ['float', 'np.float64', 'np.float32', '0d-float64', '0d-float32']
+INT_SFORMS = ['int', 'np.int64', 'np.int32', '0d-int64', '0d-int32']
+INT_PAIRS = [(1, 1), (1, 2), (2, 1), (1, 3), (3, 1), (6, 2), (2, 6), (1, 7), (7, 1), (5, 2), (2, 5), (7, 3), (3, 7), (10, 1),
+             (1, 10), (60, 1), (1, 60), (12, 5)]
+
+
+def scalar_pair(rng, pairs):
+    """(dt as given, target as given, float(dt), float(target), family): the two steps in a scalar form other than the Python
+    float - NumPy scalars, 0-d arrays (mutable), Python / NumPy integers for whole-second steps; float32 forms hold the
+    float32-rounded step, which is then THE step of the case."""
+    if rng.random() < 0.25:
+        a, b = INT_PAIRS[int(rng.integers(len(INT_PAIRS)))]
+        allf = INT_SFORMS + FLOAT_SFORMS
+        fd = INT_SFORMS[int(rng.integers(len(INT_SFORMS)))] if rng.random() < 0.7 else allf[int(rng.integers(len(allf)))]
+        ft = INT_SFORMS[int(rng.integers(len(INT_SFORMS)))] if rng.random() < 0.7 else allf[int(rng.integers(len(allf)))]
+        fam = 'whole-second-steps'
+    else:
+        if rng.random() < 0.5:
+            a, b, fam = pairs[int(rng.integers(len(pairs)))]
+        else:
+            a, b, fam = random_pair(rng, max_ratio=60.0)
+        fd = FLOAT_SFORMS[int(rng.integers(len(FLOAT_SFORMS)))]
+        ft = FLOAT_SFORMS[int(rng.integers(len(FLOAT_SFORMS)))]
+        if fd == 'float' and ft == 'float':
+            fd = '0d-float64'
+        if a == b and rng.random() < 0.7:
+            ft = fd                              # dt == target stays an equality in the given forms
+    dts, tgs = _smake(fd, a), _smake(ft, b)
+    return dts, tgs, float(dts), float(tgs), 'scalar-forms/%s' % fam
+
+
+def out_of_band_settings(dt):
+    """User settings outside the band of the data: smoothing frequencies above the Nyquist frequency, response periods
+    below two steps (where a 'robust' reader is tempted to tidy)."""
+    dt = float(dt)
+    return {'smooth_fa_freqs': np.array([0.05, 0.3, 0.6, 1.2, 3.0]) / dt,
+            'response_times': np.array([0.5, 1.5, 3.0, 50.0]) * dt}
+
+
 
 
 def _swallow(f, *a, **k):
@@ -926,15 +1129,32 @@ def call_obj(f, rng, asig, target, even):
     return _swallow(f, asig, target, even=even)
 
 
-def make_sig(eqsig, ctx, vals, dt):
+def check_settings(ctx, o, given, kept, fn, vals, dt, target, even):
+    """After a resampling call the object's user-given settings are what the caller gave, bit for bit, and the caller's
+    own arrays are untouched."""
     try:
-        return eqsig.AccSignal(vals, dt)
+        ok = all(np.asarray(getattr(o, k)).dtype == kept[k].dtype and np.asarray(getattr(o, k)).shape == kept[k].shape
+                 and np.asarray(getattr(o, k)).tobytes() == kept[k].tobytes()
+                 and given[k].tobytes() == kept[k].tobytes() for k in kept)
+    except Exception:
+        ok = False
+    ctx.check(ok, P_SETTINGS,
+              lambda: _wit(fn, _snapshot(np.asarray(vals)), dt, target, even, settings={k: v for k, v in kept.items()},
+                           settings_after={k: np.asarray(getattr(o, k, None)) for k in kept}),
+              '%s(target_dt=%r, even=%r) changed the settings of the signal object (smooth_fa_freqs / response_times given '
+              'outside the band of the data)' % (fn, target, even))
+
+
+def make_sig(eqsig, ctx, vals, dt, **settings):
+    try:
+        return eqsig.AccSignal(vals, dt, **settings)
     except Exception:
         ctx.observe('driver: AccSignal construction failed (not this property)')
         return None
 
 
-def drive_interp(eqsig, ctx, rng, dt, target, fam, n, even, c, form=None, rec=None):
+def drive_interp(eqsig, ctx, rng, dt, target, fam, n, even, c, form=None, rec=None, sc=None):
+    """sc = (dt as given, target as given): the steps in another scalar form (dt, target are their float values)."""
     x, rcls = make_record(rng, n, rec=rec)
     mode = 'array'
     if c % 4 == 3:
@@ -960,11 +1180,17 @@ def drive_interp(eqsig, ctx, rng, dt, target, fam, n, even, c, form=None, rec=No
     xv = np.asarray(vals, dtype=float)
     nontriv = bool(np.ptp(xv) > 0)
     even = pick_even(rng, even)
-    ctx.case(core.digest(xv, dt, target, bool(even), mode, form), nontrivial=nontriv,
+    ctx.case(core.digest(xv, dt, target, bool(even), mode, form, None if sc is None else (_sform(sc[0]), _sform(sc[1])),
+                         _sform(even)), nontrivial=nontriv,
              cls='interp/%s/%s' % (mode, fam),
              sample={'fn': 'interp:' + mode, 'n': n, 'dt': dt, 'target_dt': target, 'even': even, 'record': rcls,
-                     'form': form or 'f64', 'head': xv[:6]})
+                     'form': form or 'f64', 'head': xv[:6],
+                     'scalar_forms': None if sc is None else [_sform(sc[0]), _sform(sc[1]), _sform(even)]})
     ctx.observe('workload form %s' % (form or 'f64'))
+    if form in ('bool', 'list-bool'):
+        ctx.ok('bool-record.monitored-call')
+    if sc is not None:
+        dt, target = sc            # from here on the steps are passed on exactly as given
     if mode == 'array':
         if rng.random() < 0.12:
             # the SAME array object in consecutive calls; every call is judged against its own entry snapshot and the
@@ -981,9 +1207,17 @@ def drive_interp(eqsig, ctx, rng, dt, target, fam, n, even, c, form=None, rec=No
         else:
             call_array(eqsig, rng, vals, dt, target, even)
     elif mode == 'object':
-        asig = make_sig(eqsig, ctx, vals, dt)
-        if asig is not None:
-            call_obj(eqsig.interp_to_approx_dt, rng, asig, target, even)
+        if rng.random() < 0.25:
+            given = out_of_band_settings(dt)
+            kept = {k: v.copy() for k, v in given.items()}
+            asig = make_sig(eqsig, ctx, vals, dt, **given)
+            if asig is not None:
+                call_obj(eqsig.interp_to_approx_dt, rng, asig, target, even)
+                check_settings(ctx, asig, given, kept, 'interp_to_approx_dt', vals, dt, target, even)
+        else:
+            asig = make_sig(eqsig, ctx, vals, dt)
+            if asig is not None:
+                call_obj(eqsig.interp_to_approx_dt, rng, asig, target, even)
     else:
         # consumer: gen_response_spectrum refines to max(T_min/20, dt/min_dt_ratio) with even=False
         asig = make_sig(eqsig, ctx, vals, dt)
@@ -1000,10 +1234,15 @@ def drive_interp(eqsig, ctx, rng, dt, target, fam, n, even, c, form=None, rec=No
                     rt = 20.0 * target * (1.0 + np.arange(m) * 0.37)
                     if rng.random() < 0.4:
                         rt = np.concatenate([[0.0], rt])
-                _swallow(asig.gen_response_spectrum, response_times=rt, min_dt_ratio=1000.0)
+                if rng.random() < 0.15:     # float32 periods: the consumer hands a np.float32 target to the resampler
+                    rt = rt.astype(np.float32)
+                _swallow(asig.gen_response_spectrum, response_times=rt,
+                         min_dt_ratio=[1000.0, 1000, np.float64(1000.0), np.array(1000.0)][int(rng.integers(4))])
             else:
                 # the step comes from the ratio: target = dt / min_dt_ratio (quotient dt / (dt / k) recovered by ceil)
                 k = [2, 3, 5, 6, 7, 9, 10, 11, 12][int(rng.integers(9))] if r < 0.9 else float(rng.uniform(1.5, 12.0))
+                if r < 0.9:                 # the ratio as Python int / float, NumPy scalars, 0-d array
+                    k = [int, float, np.int64, np.float64, np.float32, np.array][int(rng.integers(6))](k)
                 _swallow(asig.gen_response_spectrum, response_times=np.array([dt * 1.5, dt * 40.0]), min_dt_ratio=k)
         finally:
             VIA['consumer'] = False
@@ -1071,13 +1310,13 @@ def pilot_step(eqsig, N, dt, target, even):
             new_dt = float(eqsig.resample_to_approx_dt(eqsig.AccSignal(np.zeros(N), dt), target, even=even).dt)
     except Exception:
         new_dt = None
-    if not (new_dt is not None and 0 < new_dt <= target * (1 + 1e-9)):
-        new_dt = target
+    if not (new_dt is not None and 0 < new_dt <= float(target) * (1 + 1e-9)):
+        new_dt = float(target)
     return new_dt
 
 
-def synth_for(eqsig, rng, N, dt, target, even, kmode=None, scales=True, kcap=None):
-    new_dt = pilot_step(eqsig, N, dt, target, even)
+def synth_for(eqsig, rng, N, dt, target, even, kmode=None, scales=True, kcap=None, pilot=None):
+    new_dt = pilot_step(eqsig, N, *((dt, target) if pilot is None else (_freeze(pilot[0]), _freeze(pilot[1]))), even)
     if kmode is None and N % 2 == 0 and N >= 4 and new_dt < dt * (1 - 1e-6) and kcap is None and rng.random() < 0.25:
         kmode = 'nyquist'
     if kmode == 'nyquist':
@@ -1111,8 +1350,8 @@ def synth_for(eqsig, rng, N, dt, target, even, kmode=None, scales=True, kcap=Non
     return x, K, Kmax, kmode
 
 
-def drive_fourier(eqsig, ctx, rng, dt, target, fam, N, even, kmode=None, kcap=None):
-    x, K, Kmax, kmode = synth_for(eqsig, rng, N, dt, target, even, kmode, kcap=kcap)
+def drive_fourier(eqsig, ctx, rng, dt, target, fam, N, even, kmode=None, kcap=None, sc=None):
+    x, K, Kmax, kmode = synth_for(eqsig, rng, N, dt, target, even, kmode, kcap=kcap, pilot=sc)
     form = None
     vals = x
     r = rng.random() if kcap is None else 1.0        # very long records stay float64 (few harmonics: cheap reference)
@@ -1135,13 +1374,27 @@ def drive_fourier(eqsig, ctx, rng, dt, target, fam, N, even, kmode=None, kcap=No
     elif r < 0.18:
         # integer records of every width (quantised: band-limited only where every harmonic of the record is below
         # both Nyquist frequencies, i.e. odd npts without decimation; otherwise only the step rule is judged)
-        form = ['i64', 'i32', 'i16', 'i8', 'u8', 'u16', 'list-int'][int(rng.integers(7))]
+        form = ['i64', 'i32', 'i16', 'i8', 'u8', 'u16', 'list-int', 'bool', 'list-bool'][int(rng.integers(9))]
         vals = make_form(rng, x, form)
     even = pick_even(rng, even)
-    ctx.case(core.digest(np.asarray(vals, dtype=float), dt, target, bool(even), 'fourier', form), nontrivial=K >= 1,
+    ctx.case(core.digest(np.asarray(vals, dtype=float), dt, target, bool(even), 'fourier', form,
+                         None if sc is None else (_sform(sc[0]), _sform(sc[1])), _sform(even)), nontrivial=K >= 1,
              cls='fourier/%s/%s' % (kmode, fam),
              sample={'fn': 'resample_to_approx_dt', 'n': N, 'dt': dt, 'target_dt': target, 'even': even, 'K': K,
-                     'Kmax': Kmax, 'form': form or 'f64', 'head': x[:6]})
+                     'Kmax': Kmax, 'form': form or 'f64', 'head': x[:6],
+                     'scalar_forms': None if sc is None else [_sform(sc[0]), _sform(sc[1]), _sform(even)]})
+    if form in ('bool', 'list-bool'):
+        ctx.ok('bool-record.monitored-call')
+    if sc is not None:
+        dt, target = sc
+    if rng.random() < 0.2:
+        given = out_of_band_settings(dt)
+        kept = {k: v.copy() for k, v in given.items()}
+        asig = make_sig(eqsig, ctx, vals, dt, **given)
+        if asig is not None:
+            call_obj(eqsig.resample_to_approx_dt, rng, asig, target, even)
+            check_settings(ctx, asig, given, kept, 'resample_to_approx_dt', vals, dt, target, even)
+        return
     asig = make_sig(eqsig, ctx, vals, dt)
     if asig is not None:
         call_obj(eqsig.resample_to_approx_dt, rng, asig, target, even)
@@ -1342,11 +1595,11 @@ def drive_back_to_back(eqsig, ctx, rng, pairs):
     def run(x, dt_, target_, even_):
         if kind == 'array':
             r = _swallow(eqsig.interp_array_to_approx_dt, x, dt_, target_dt=target_, even=even_)
-            return None if r is None else (r[0], r[1])
+            return None if r is None else (r[0], r[1], None)
         s = make_sig(eqsig, ctx, x, dt_)
         r = None if s is None else _swallow(eqsig.interp_to_approx_dt if kind == 'object' else eqsig.resample_to_approx_dt,
                                             s, target_, even=even_)
-        return None if r is None else (r.values, r.dt)
+        return None if r is None else (r.values, r.dt, r)
     ctx.case(core.digest(x1, x2, dt, target, even, target2, even2, kind), nontrivial=bool(np.ptp(x1) > 0 or np.ptp(x2) > 0),
              cls='back-to-back/%s/%s/%s' % (variant, kind, fam),
              sample={'fn': 'back-to-back:' + kind, 'variant': variant, 'n': n, 'dt': dt, 'target_dt': target, 'even': even,
@@ -1373,12 +1626,26 @@ def drive_back_to_back(eqsig, ctx, rng, pairs):
         intact = not np.shares_memory(r1[0], r2[0])
     ctx.check(intact, 'state.first-result-intact-after-second-call' + sfx, w,
               'the result of the first call changed (or shares memory with the second result) after a second call: ' + desc)
+    # a result belongs to the caller: every array of the first (and second) result is overwritten before the repeat
+    overwritten = 0
+    for res in (r1, r2):
+        if res is None:
+            continue
+        arrs = [res[0], res[1]] + ([] if res[2] is None else list(vars(res[2]).values()))
+        for a_ in arrs:
+            if isinstance(a_, np.ndarray) and a_.flags.writeable and a_.dtype.kind in 'fc' and a_.size:
+                a_[...] = -7.25e3
+                overwritten += 1
     r3 = run(x1, dt, target, even)
     if r3 is not None:
         same = isinstance(r3[0], np.ndarray) and r3[0].shape == keep[0].shape and r3[0].tobytes() == keep[0].tobytes() \
             and r3[1] == keep[1]
         ctx.check(same, 'state.repeat-call-identical' + sfx, w,
                   'repeating the first call after another call gave a different result: ' + desc)
+        if overwritten:
+            ctx.check(same, P_OWNED, lambda: w(overwrote_results_with=-7.25e3),
+                      'after every array of the earlier results was overwritten by the caller, the same call returned a '
+                      'different result (a table handed out by reference): ' + desc)
 
 
 # ------------------------------------------------------------------ ends of the admissible range of the target step
@@ -1422,7 +1689,7 @@ def edge_case(rng):
 
 
 # ------------------------------------------------------------------ calls the library rejects or that lie outside the quantifier
-BAD_TARGETS = [0.0, -0.01, None, 'a', float('nan'), float('inf'), [0.01]]
+BAD_TARGETS = [0.0, -0.01, None, 'a', float('nan'), float('inf'), [0.01], np.array([0.01]), np.array([0.01, 0.02])]
 
 
 def drive_rejected(eqsig, ctx, rng):
@@ -1441,10 +1708,10 @@ def drive_rejected(eqsig, ctx, rng):
         x = x[:int(rng.integers(0, 3))]
         kind = 'too-short'
     elif r == 2:
-        target = BAD_TARGETS[int(rng.integers(len(BAD_TARGETS)))]
+        target = _freeze(BAD_TARGETS[int(rng.integers(len(BAD_TARGETS)))])
         kind = 'unusable-target'
     else:             # unusable time step
-        dt = [0.0, -0.01, float('nan')][int(rng.integers(3))]
+        dt = [0.0, -0.01, float('nan'), np.array([0.01]), np.array(0.0)][int(rng.integers(5))]
         kind = 'unusable-dt'
     form = [None, 'list', 'tuple', 'readonly', 'view-stride2', 'f32'][int(rng.integers(6))]
     vals = x if (form is None or len(x) == 0) else make_form(rng, x, form)
@@ -1537,7 +1804,8 @@ def protocol_spec(rng, warm, proto, order):
                 reset(who)
             elif op == 'bad-target':
                 steps.append({'who': who, 'op': 'bad-target', 'fn': CALL_FNS[int(rng.integers(2))],
-                              'target': BAD_TARGETS[int(rng.integers(len(BAD_TARGETS)))], 'even': bool(rng.random() < 0.5)})
+                              'target': _freeze(BAD_TARGETS[int(rng.integers(len(BAD_TARGETS)))]),
+                              'even': bool(rng.random() < 0.5)})
             else:
                 steps.append({'who': who, 'op': 'raise-spectrum', 'mode': ['empty', 'negative-ratio', 'text'][int(rng.integers(3))]})
         calls(who)
@@ -1663,7 +1931,7 @@ def exec_protocol(eqsig, ctx, spec):
                     _swallow(lambda: o.add_signal(other()))
                 elif op == 'bad-target':
                     flags[st['who']].add('raise')
-                    _swallow(getattr(eqsig, st['fn']), o, st['target'], even=st['even'])
+                    _swallow(getattr(eqsig, st['fn']), o, _freeze(st['target']), even=st['even'])
                 elif op == 'raise-spectrum':
                     flags[st['who']].add('raise')
                     kw = {'empty': dict(response_times=[]), 'negative-ratio': dict(response_times=np.array([0.05, 1.0]), min_dt_ratio=-4.0),
@@ -1795,6 +2063,21 @@ def run_shard(ctx):
                 drive_interp(eqsig, ctx, rng, dt, target, fam + '/silent-or-one-signed', n, even, c, form=form,
                              rec=('silent' if r % 2 == 0 else 'one-sided'))
                 ctx.ok('silent-or-one-signed.monitored-call')
+    # scalar forms of the two steps and of the flag (audit checklist 28): NumPy scalars, 0-d arrays, integers; array-,
+    # object-, consumer-level and Fourier
+    for r in range(60 if quick else 1200):
+        dts, tgs, dtf, tgf, fam = scalar_pair(rng, pairs)
+        if not (dtf > 0 and tgf > 0) or dtf / tgf > 60 or tgf / dtf > 200:
+            continue
+        n = lengths(rng, dtf, tgf, 1, span=120)[0]
+        for even in (True, False):
+            c += 1
+            drive_interp(eqsig, ctx, rng, dtf, tgf, fam, n, even, c, sc=(_freeze(dts), _freeze(tgs)),
+                         form=(['bool', 'list-bool'][r % 2] if r % 10 == 0 else None))
+            ctx.ok('scalar-forms.monitored-call')
+        if r % 2 == 0 and n <= 600 and n * max(1.0, dtf / tgf) <= 20000:
+            drive_fourier(eqsig, ctx, rng, dtf, tgf, fam, n, bool(rng.random() < 0.5), sc=(_freeze(dts), _freeze(tgs)))
+            ctx.ok('scalar-forms.monitored-call')
     # a few calls outside the quantifier (target > duration/2): counted by the monitors, never judged (purity is)
     for r in range(5):
         dt, target, fam = random_pair(rng)
@@ -1879,17 +2162,26 @@ def replay(w):
     ctx = core.Ctx(PROP_ID, 'quick', 0, 0, 1)
     install(ctx)
     values = _rebuild(w)
-    dt, target, even = w['dt'], w['target_dt'], w['even']
+    if w.get('values_dtype') == 'bool' and isinstance(values, np.ndarray):
+        values = values.astype(bool)
+    sf = w.get('scalar_forms') or {}
+    dt, target, even = _smake(sf.get('dt'), w['dt']), _smake(sf.get('target_dt'), w['target_dt']), _smake(sf.get('even'), w['even'])
     fn = w.get('fn')
     f = {'interp_to_approx_dt': eqsig.interp_to_approx_dt, 'resample_to_approx_dt': eqsig.resample_to_approx_dt}.get(fn)
 
     def run(v, dt=dt, target=target, even=even):
         if f is None:
-            r = _swallow(eqsig.interp_array_to_approx_dt, v, dt, target_dt=target, even=even)
+            r = _swallow(eqsig.interp_array_to_approx_dt, v, _freeze(dt), target_dt=_freeze(target), even=_freeze(even))
             return None if r is None else (r[0], r[1])
-        r = _swallow(f, eqsig.AccSignal(v, dt), target, even=even)
+        r = _swallow(f, eqsig.AccSignal(v, _freeze(dt)), _freeze(target), even=_freeze(even))
         return None if r is None else (r.values, r.dt)
-    if w.get('scenario') == 'protocol':
+    if w.get('settings') is not None and f is not None:
+        given = {k: np.array(v, dtype=float) for k, v in w['settings'].items()}
+        kept = {k: v.copy() for k, v in given.items()}
+        o = eqsig.AccSignal(values, _freeze(dt), **given)
+        _swallow(f, o, _freeze(target), even=_freeze(even))
+        check_settings(ctx, o, given, kept, fn, values, dt, target, even)
+    elif w.get('scenario') == 'protocol':
         exec_protocol(eqsig, ctx, w['spec'])
     elif w.get('scenario') == 'back-to-back':
         r1 = run(values)
@@ -1900,6 +2192,10 @@ def replay(w):
             ok1 = r1[0].tobytes() == keep[0].tobytes() and r1[1] == keep[1] and \
                 not (r2 is not None and np.shares_memory(r1[0], r2[0]))
             ctx.check(ok1, 'state.first-result-intact-after-second-call', w, 'first result changed after the second call')
+            if w.get('overwrote_results_with') is not None:
+                for res in (r1, r2):
+                    if res is not None and isinstance(res[0], np.ndarray) and res[0].flags.writeable:
+                        res[0][...] = w['overwrote_results_with']
             r3 = run(values)
             if r3 is not None:
                 ctx.check(r3[0].tobytes() == keep[0].tobytes() and r3[1] == keep[1], 'state.repeat-call-identical', w,
